@@ -178,10 +178,33 @@ impl Prop for C08 {
         tier.pick(6_000, 150_000)
     }
     fn enumerated_subspaces(&self, _tier: Tier) -> Vec<String> {
-        vec!["each ASCII character 0..=127 as one-character content and as a tag value".into()]
+        vec![
+            "each ASCII character 0..=127 as one-character content and as a tag value".into(),
+            "contents with a 2/3/4-byte character straddling byte offsets 4096, 8192, 16384, 32768, 65536".into(),
+        ]
     }
     fn enumerate(&self, _tier: Tier) -> Vec<Case> {
-        (0u8..128)
+        let mut big: Vec<Case> = Vec::new();
+        for boundary in [4096usize, 8192, 16384, 32768, 65536] {
+            for back in 1..=3usize {
+                for ch in ["é", "†", "𝄞"] {
+                    // the character's bytes lie across `boundary`
+                    let mut content = "a".repeat(boundary - back.min(ch.len() - 1).max(1));
+                    content.push_str(ch);
+                    content.push_str("tail");
+                    big.push(Case {
+                        secret: hex(&[9u8; 32]),
+                        kind: 1,
+                        created_at: 1_700_000_001,
+                        tags: vec![],
+                        content,
+                        mutation: Mutation::None,
+                        plan: Plan::default(),
+                    });
+                }
+            }
+        }
+        let small = (0u8..128)
             .map(|c| {
                 let s = (c as char).to_string();
                 Case {
@@ -194,7 +217,9 @@ impl Prop for C08 {
                     plan: Plan::default(),
                 }
             })
-            .collect()
+            .collect::<Vec<Case>>();
+        big.extend(small);
+        big
     }
     fn strategy(&self, tier: Tier) -> BoxedStrategy<Case> {
         let maxlen = tier.pick(16, 120);
@@ -304,6 +329,19 @@ impl Prop for C08 {
                 out.fail("C08:sign_new-signature-invalid", "signature of a sign_new event does not verify under secp256k1 0.29");
                 return out;
             }
+        }
+
+        // real traffic contains invalid events too: verifying one first must not influence the next verification
+        if let Ok(junk) = OwnedEvent::new(
+            pocket_types::Id::from_bytes([0x42; 32]),
+            Kind::from_u16(1),
+            pocket_types::Pubkey::from_bytes(secret),
+            pocket_types::Sig::from_bytes([0x24; 64]),
+            &tags,
+            Time::from_u64(c.created_at),
+            b"caf\xC3",
+        ) {
+            let _ = guard("Event::verify(junk)", || junk.verify().is_ok());
         }
 
         // (ii) harness-signed event, from parts and through JSON
